@@ -199,6 +199,10 @@ def replace_bytes(b, new):
 def byte_value(ex, v):
     if not is_num(v):
         ex.throw('TypeError', 'an integer is required')
+    if is_bv(v):
+        if not ex.branch(mk_bool(z3.ULE(v.t, 255))):
+            ex.throw('ValueError', 'byte must be in range(0, 256)')
+        return v
     if not ex.branch(mk_bool(z3.And(zint(v) >= 0, zint(v) <= 255))):
         ex.throw('ValueError', 'byte must be in range(0, 256)')
     return v
